@@ -150,10 +150,12 @@ func (o *Oracle) CreateResponseTx(gasForResponse int64, vub uint32, resp *transa
 
 	currNetFee := tx.NetworkFee + int64(size)*o.Chain.FeePerByte()
 	if currNetFee > gasForResponse {
-		attrSize := io.GetVarSize(tx.Attributes)
+		// There is exactly one attribute and only a pointer to it is
+		// Serializable (a slice of values has no measurable elements).
+		attrSize := io.GetVarSize(&tx.Attributes[0])
 		resp.Code = transaction.InsufficientFunds
 		resp.Result = nil
-		size = size - attrSize + io.GetVarSize(tx.Attributes)
+		size = size - attrSize + io.GetVarSize(&tx.Attributes[0])
 	}
 	tx.NetworkFee += int64(size) * o.Chain.FeePerByte() // 233
 
